@@ -94,3 +94,48 @@ func zzC06Init(n int) {
 		}
 	}
 }
+
+func init() {
+	vRegister("zzC06Day", func(a []int) { zzC06Day(a[0], a[1]) })
+}
+
+// zzC06Day: a whole day split into k sub-steps (Water called with subd = 1..k, wdt = 1/k, as the
+// day loop does): bounds after every sub-step and the day-level water balance (C01).
+func zzC06Day(n, k int) {
+	g, l, wdt := zzWaterState(n, k)
+	zeit := vInt("zeit")
+	capsMax := 0.0
+	for i := 0; i < 21; i++ {
+		if g.CAPS[i] > capsMax {
+			capsMax = g.CAPS[i]
+		}
+	}
+	s0 := 0.0
+	for i := 0; i < n; i++ {
+		// day start between the dryness limit and field capacity. Outside the claim: a day that starts
+		// above field capacity by the previous day's capillary increment on a soil whose water between
+		// field capacity and the dryness limit is less than one sub-step's uptake (see DESIGN, C06)
+		vAssume(g.WG[0][i] >= g.WMIN[i]/3 && g.WG[0][i] <= g.W[i])
+		s0 += g.WG[0][i] * g.DZ.Num
+	}
+	eps := 1e-9
+	bottom, drain := 0.0, 0.0
+	for subd := 1; subd <= k; subd++ {
+		Water(wdt, subd, zeit, g, l)
+		bottom += g.Q1[n]
+		drain += g.QDRAIN
+		for i := 0; i < n; i++ {
+			vAssert("C06.day.upper_after_every_substep", g.WG[1][i] <= g.W[i]+capsMax*wdt+eps)
+			vAssert("C06.day.lower_after_every_substep", g.WG[1][i] >= g.WMIN[i]/3-eps)
+		}
+	}
+	vCover("C06.day.reach")
+	s1, tp := 0.0, 0.0
+	for i := 0; i < n; i++ {
+		s1 += g.WG[1][i] * g.DZ.Num
+		tp += g.TP[i]
+		vObserve("wg1", g.WG[1][i])
+	}
+	// C01 at day level: the sub-steps neither create nor lose water
+	vAssert("C01.day.balance_over_substeps", vNear(s1-s0, g.FLUSS0-tp-bottom-drain, eps))
+}
